@@ -5,9 +5,9 @@
 //
 //   case <id> | <expr> | <leaf specs> | <events>
 //
-//   expr   := (just N) (jerr N) (jdone) (argv N) (sir) (leaf N)
+//   expr   := (just N) (jerr N) (jdone) (argv N) (sir) (leaf N) (jfrom N) (jvod 0|1) (iv E) (dfr E) (alc E)
 //             (then FN E) (uerr FN E) (udone N E) (md E) (dao N E) (uns E) (tag N E) (src E) (era E)
-//             (lv A B) (le A B) (ld A B) (seq A B) (fin A B) (wa A B) (sw A B)
+//             (lv A B) (le A B) (ld A B) (seq A B) (fin A B) (wa A B) (sw A B) (any A B)
 //   FN     := add:K | thr:E | tie:C:E:K
 //   specs  := I=i:vN | I=i:eN | I=i:d | I=p:ign | I=p:done          (space separated)
 //   events := start | stop | cI:vN | cI:eN | cI:d                   (space separated)
@@ -18,7 +18,12 @@
 //   event result := comma separated, sorted:  lsI:S:T (leaf I started, S = stop already requested,
 //                   T = tag seen) | lpI (leaf I got a stop notification) | R=vN / R=eN / R=d (root completed)
 //   plus monitors: "!!" items (root completed twice, completion before start, …)
+#include <unifex/allocate.hpp>
 #include <unifex/any_sender_of.hpp>
+#include <unifex/defer.hpp>
+#include <unifex/into_variant.hpp>
+#include <unifex/just_from.hpp>
+#include <unifex/just_void_or_done.hpp>
 #include <unifex/dematerialize.hpp>
 #include <unifex/done_as_optional.hpp>
 #include <unifex/finally.hpp>
@@ -42,6 +47,7 @@
 #include <unifex/upon_done.hpp>
 #include <unifex/upon_error.hpp>
 #include <unifex/when_all.hpp>
+#include <unifex/when_any.hpp>
 #include <unifex/with_query_value.hpp>
 
 #include <algorithm>
@@ -204,7 +210,15 @@ static Any build(World* w, const Node& n, int arg) {
 #if !UNIFEX_NO_COROUTINES
   if (k == "sir") return Any{then(stop_if_requested(), []() noexcept { return 0; })};
 #endif
+  if (k == "jfrom") { int v = num(0); return Any{just_from([v]() noexcept { return v; })}; }
+  if (k == "jvod") return Any{then(just_void_or_done(num(0) != 0), []() noexcept { return 0; })};
   if (k == "leaf") return Any{LeafSender{w, num(0)}};
+  if (k == "iv") {
+    return Any{then(into_variant(build(w, n.ch.at(0), arg)),
+                    [](auto&& var) noexcept { return std::get<0>(std::get<0>(var)); })};
+  }
+  if (k == "dfr") { const Node* c = &n.ch.at(0); return Any{defer([w, c, arg]() { return build(w, *c, arg); })}; }
+  if (k == "alc") return Any{allocate(build(w, n.ch.at(0), arg))};
   if (k == "then") { Fn f = parse_fn(n.args.at(0)); return Any{then(build(w, n.ch.at(0), arg), f)}; }
   if (k == "uerr") {
     Fn f = parse_fn(n.args.at(0));
@@ -243,6 +257,7 @@ static Any build(World* w, const Node& n, int arg) {
                       return (int)(((long long)std::get<0>(std::get<0>(a)) * 1000 + std::get<0>(std::get<0>(b))) % 1000003);
                     })};
   }
+  if (k == "any") return Any{when_any(build(w, n.ch.at(0), arg), build(w, n.ch.at(1), arg))};
   if (k == "sw") return Any{stop_when(build(w, n.ch.at(0), arg), discard(build(w, n.ch.at(1), arg)))};
   throw std::runtime_error("unknown node " + k);
 }
@@ -327,6 +342,10 @@ static std::string run_case(const std::string& line) {
     }
     if (w.started && w.rootCompletions != 1) res += " | !!root-completions=" + std::to_string(w.rootCompletions);
   }
+  // The operation state is destroyed now.  A stop request AFTER that must not reach anything: a stop
+  // callback that an operation left registered on its receiver's token would now run on freed memory
+  // (C04: every callback is deregistered before the receiver is completed) - ASan reports it.
+  src.request_stop();
   return res;
 }
 
